@@ -51,18 +51,16 @@ def w1_geomodel(run: Run, cy: CyProgram):
     f = cy.func(CORE, "_randomly_rewire_geomodel")
     if f is None:
         raise AnalysisError("_randomly_rewire_geomodel vanished")
-    blocks = []
-    for s in walk(f.body):
-        if isinstance(s, X) and s.k == "if":
-            for cond, b in s.a[0]:
-                st = _matrix_stores(b, _adj_name(f))
-                if st:
-                    blocks.append((cond, b, st, s))
+    from .loopir import guarded_store_blocks
+    blocks = guarded_store_blocks(f.body, _adj_name(f))
     if len(blocks) != 1:
         raise AnalysisError(f"{f.where}: expected one guarded swap block, found "
                             f"{len(blocks)}")
-    cond, body, stores, ifnode = blocks[0]
-    where = f"{f.module.relpath}:{ifnode.line}"
+    conds, body = blocks[0]
+    if not conds:
+        raise AnalysisError(f"{f.where}: the swap block is not guarded")
+    cond = X("boolop", "and", conds) if len(conds) > 1 else conds[0]
+    where = f"{f.module.relpath}:{conds[0].line or f.line}"
     from .loopir import symmetric_store_report
     removed, added = [], []
     sym_ok = True
@@ -221,11 +219,27 @@ def w1_cross(run: Run, cy: CyProgram):
                     f"loop testing that this cell is empty (tested: {sorted(tested)}): an "
                     f"existing cross link is overwritten and the link count drops")
     # the link list swaps the second end points of the two links
-    ls = [st for st in body if st.k == "assign" and st.a[0][0].k == "index"
-          and pp(st.a[0][0].a[0]) == "cross_links"]
-    srcs = [(pp(st.a[0][0]), pp(st.a[1])) for st in ls]
+    # (target text, value text) of every store into the link list, tuple
+    # assignments taken element-wise; temporaries resolved to what they hold
+    temp = {}
+    srcs = []
+    for st in body:
+        if st.k != "assign":
+            continue
+        if len(st.a[0]) == 1 and st.a[0][0].k == "name" and st.a[1].k == "index" and \
+                pp(st.a[1].a[0]) == "cross_links":
+            temp[st.a[0][0].a[0]] = pp(st.a[1])
+        pairs_ = []
+        if len(st.a[0]) == 1 and st.a[0][0].k == "tuple" and st.a[1].k == "tuple" and \
+                len(st.a[0][0].a[0]) == len(st.a[1].a[0]):
+            pairs_ = list(zip(st.a[0][0].a[0], st.a[1].a[0]))
+        else:
+            pairs_ = [(t_, st.a[1]) for t_ in st.a[0]]
+        for t_, v_ in pairs_:
+            if t_.k == "index" and pp(t_.a[0]) == "cross_links":
+                srcs.append((pp(t_), temp.get(pp(v_), pp(v_))))
     ok = ("cross_links[e1, 1]", "cross_links[e2, 1]") in srcs and \
-        any(t == "cross_links[e2, 1]" for t, v in srcs)
+        ("cross_links[e2, 1]", "cross_links[e1, 1]") in srcs
     run.oblige("W1", "cross:link-list", ok, sample={"updates": srcs})
     if not ok:
         run.add("W1", "_randomlyRewireCrossLinks/link-list", where,
@@ -319,7 +333,7 @@ def w3(run: Run, cy: CyProgram):
     if ok:
         idx = [tuple(binds.get(i, i) for i in r[1]) for r in rep]
         ok = sorted(idx) == sorted([(f"{l1}[i]", f"{l2}[j]"), (f"{l2}[j]", f"{l1}[i]")]) \
-            and all(r[2] == f"{cross}[i, j]" for r in rep)
+            and all(binds.get(r[2], r[2]) == f"{cross}[i, j]" for r in rep)
     run.oblige("W3", "overwriteAdjacency", ok, sample={"where": f.where})
     if not ok:
         run.add("W3", "overwriteAdjacency/indices", f.where,
@@ -477,7 +491,11 @@ def w7_ba(run: Run, prog: Program):
     ok = len(tests) == 1 and len(sets) == 1 and \
         ast.unparse(tests[0].left.slice) == ast.unparse(sets[0].targets[0].slice) and \
         ast.unparse(tests[0].comparators[0]) == ast.unparse(sets[0].value) and \
-        isinstance(tests[0].ops[0], ast.NotEq)
+        (isinstance(tests[0].ops[0], ast.NotEq) or
+         # `while arr[x] == v: redraw` rejects the same duplicates
+         (isinstance(tests[0].ops[0], ast.Eq) and any(
+             isinstance(w_, ast.While) and any(c_ is tests[0] for c_ in ast.walk(w_.test))
+             for w_ in ast.walk(m.node))))
     run.oblige("W7", "BarabasiAlbert:guard", ok, sample={
         "test": ast.unparse(tests[0]) if tests else None,
         "update": ast.unparse(sets[0]) if sets else None})
